@@ -40,7 +40,8 @@ fn rdt_naive(t: NaiveDateTime) -> Value {
 
 fn rdt_aware(t: &DateTime<Tz>) -> Value {
     let l = t.naive_local();
-    json!({"local": [l.year(), l.month(), l.day(), l.hour(), l.minute(), l.second()], "zone": t.timezone().name(), "offset": t.offset().fix().local_minus_utc()})
+    let ambiguous = matches!(t.timezone().from_local_datetime(&l), LocalResult::Ambiguous(..));
+    json!({"local": [l.year(), l.month(), l.day(), l.hour(), l.minute(), l.second()], "zone": t.timezone().name(), "offset": t.offset().fix().local_minus_utc(), "ambiguous": ambiguous})
 }
 
 #[derive(Clone)]
